@@ -137,12 +137,26 @@ def opSym : P String := do
   let A ← pCoo
   pure (fCoo (Graph.symmetrize r A))
 
+/-- `relations <pinned 0/1> <w> <maxN> <L> { <len> (k v)* }^L` → the tensor, flattened, `-1` for none. -/
+def opRelations : P String := do
+  let pinned ← pNat
+  let w ← pNat
+  let maxN ← pNat
+  let L ← pNat
+  let dicts ← pMany L (do
+    let n ← pNat
+    pMany n (do let k ← pNat; let v ← pNat; pure (k, v)))
+  let t := Relations.expandRelations (pinned == 1) dicts w maxN
+  let flat := t.flatten.flatten
+  pure (join (flat.map (fun o => match o with | some v => toString v | none => "-1")))
+
 def dispatch (op : String) : P String :=
   match op with
   | "knn" => opKnn
   | "members" => opMembers
   | "graph" => opGraph
   | "sym" => opSym
+  | "relations" => opRelations
   | "ping" => pure "pong"
   | _ => throw "unknown"
 
